@@ -51,6 +51,12 @@ func genPlan(r *rng, refs *refTable) (*Plan, planInfo) {
 		default:
 			weights[c] = 1 + r.intn(8)
 		}
+		if c == clsLarge {
+			// expensive: in a quarter of the runs, and then rarely
+			if weights[c] > 1 || r.intn(6) != 0 {
+				weights[c] = 0
+			}
+		}
 		wsum += weights[c]
 	}
 	if wsum == 0 {
@@ -163,9 +169,15 @@ func genPlan(r *rng, refs *refTable) (*Plan, planInfo) {
 	if c.Kind == sRoundRobin {
 		c.P = 1 + r.intn(300)
 	}
+	if c.Kind == sRare {
+		c.P = []int{2, 10, 50, 200, 1000}[r.intn(5)]
+	}
 	c.D = 1 + r.intn(4)
 	grans := []uint8{0xff, 0xff, 1 | 2 | 8, 8, 1}
 	c.Gran = grans[r.intn(len(grans))]
+	if c.Kind == sRare {
+		c.Gran = 0xff
+	}
 	if r.chance(1, 3) {
 		c.GCDen = 500 + r.intn(20000)
 	}
